@@ -30,9 +30,17 @@ def specOf (extra : List RuleEntry) (prem : Bool) (t out : List Cell) : Json :=
     ("coordsOk", Spec.C09.coordsOk t out),
     ("keysOk", Spec.C09.keysOk t out),
     ("metaOk", Spec.C09.metaOk t out),
-    ("nonLossOk", (prem || incr) || Spec.C09.nonLossOk Generated.Summarize.nonLossMetrics t out),
+    ("nonLossOk", (prem || incr) || Spec.C09.nonLossOkStrict Generated.Summarize.nonLossMetrics t out),
     ("ratioOk", Spec.C09.ratioOk tol "reported_loss"
         (stillDefault extra (if prem || incr then Spec.C09.ratioFields else [])) t out)]
+
+/-- known finding D29: `Spec.ratioOk` (the code's reading: weights of cells WITHOUT a value stay in the denominator)
+accepts the implementation's output while the plain reading `Spec.ratioOkPlain` (numerator and denominator over the
+cells that have a value) rejects it -/
+def d29Of (extra : List RuleEntry) (prem : Bool) (t out : List Cell) : Bool :=
+  let incr := smIsIncremental t
+  let fields := stillDefault extra (if prem || incr then Spec.C09.ratioFields else [])
+  Spec.C09.ratioOk tol "reported_loss" fields t out && !Spec.C09.ratioOkPlain tol "reported_loss" fields t out
 
 def handle (j : Json) : Except String Json := do
   let op ← (← j.getObjVal? "op").getStr?
@@ -42,12 +50,12 @@ def handle (j : Json) : Except String Json := do
   match op with
   | "summarize" =>
     let model := summarize Transc.id extra cells prem
-    let spec ← match j.getObjVal? "impl" with
-      | .ok v => if v.isNull then pure Json.null else do
+    let (spec, d29) ← match j.getObjVal? "impl" with
+      | .ok v => if v.isNull then pure (Json.null, false) else do
           let out ← cellsFromJson v
-          pure (specOf extra prem cells out)
-      | .error _ => pure Json.null
-    return Json.mkObj [("model", exceptToJson cellsToJson model), ("spec", spec)]
+          pure (specOf extra prem cells out, d29Of extra prem cells out)
+      | .error _ => pure (Json.null, false)
+    return Json.mkObj [("model", exceptToJson cellsToJson model), ("spec", spec), ("d29", Json.bool d29)]
   | "cellValues" =>
     -- `summarize_cell_values(cells, agg_fns, summarize_premium)` on an arbitrary list of cells; for the Spec the
     -- cells are placed at one coordinate (the function never looks at coordinates)
@@ -64,7 +72,7 @@ def handle (j : Json) : Except String Json := do
             pure (Json.mkObj [
               ("cellSums", Spec.C09.cellSums summed t [o]),
               ("keysOk", Spec.C09.keysOk t [o]),
-              ("nonLossOk", prem || Spec.C09.nonLossOk Generated.Summarize.nonLossMetrics t [o]),
+              ("nonLossOk", prem || Spec.C09.nonLossOkStrict Generated.Summarize.nonLossMetrics t [o]),
               ("ratioOk", Spec.C09.ratioOk tol "reported_loss" (stillDefault extra (if prem then Spec.C09.ratioFields else [])) t [o])])
       | .error _ => pure Json.null
     return Json.mkObj [("model", exceptToJson (dictToJson Val.toJson) model), ("spec", spec)]
